@@ -58,6 +58,11 @@ def _shapes_c02_1(tier):
                         # parameter sets - did not finish in 70 minutes)
                         for delta in ((0,) if tier == "quick" or
                                       (n0, n1) != (3, 3) else (0, -1, 1)):
+                            if delta == 1 and block == 16:
+                                # a record extended by a 16-byte block: the
+                                # padding/MAC query ran into the solver's
+                                # limits (unknown / 20 min) - not claimed
+                                continue
                             out.append(dict(mode=mode, version=list(ver),
                                             block=block, mac=mac, n0=n0,
                                             n1=n1, s=s, other=False,
